@@ -397,6 +397,29 @@ impl<'a> GeneratorState<'a> {
         }
     }
 
+    /// High byte of the right-hand side of a 16 bits assignment. A function is not called a
+    /// second time: its unsigned 8 bits result has a high byte of 0
+    fn generate_high_byte_of_rhs(&mut self, rhs: &Expr, pos: usize) -> Result<ExprType, Error> {
+        if let Expr::FunctionCall(f, _) = rhs {
+            let signed = match f.as_ref() {
+                Expr::Identifier(name, _) => self
+                    .compiler_state
+                    .functions
+                    .get(name)
+                    .map_or(false, |f| f.return_signed),
+                _ => false,
+            };
+            if signed {
+                return Err(self.compiler_state.syntax_error(
+                    "Signed function result assigned to a 16 bits variable. Please use an intermediate variable",
+                    pos,
+                ));
+            }
+            return Ok(ExprType::Immediate(0));
+        }
+        self.generate_expr(rhs, pos, true, true)
+    }
+
     fn generate_addr(&mut self, expr: &Expr, pos: usize) -> Result<ExprType, Error> {
         match expr {
             Expr::Identifier(var, sub) => {
@@ -504,7 +527,7 @@ impl<'a> GeneratorState<'a> {
                                 if !eight_bits {
                                     // Don't regenerate left hand side (it's a left value anyway)
                                     //let left = self.generate_expr(lhs, pos, true, true)?;                                     let right = self.generate_expr(rhs, pos, true, true)?;
-                                    let right = self.generate_expr(rhs, pos, true, true)?;
+                                    let right = self.generate_high_byte_of_rhs(rhs, pos)?;
                                     self.generate_assign(&left, &right, pos, true)?;
                                 }
                             }
@@ -515,7 +538,7 @@ impl<'a> GeneratorState<'a> {
                                 {
                                     // Don't regenerate left hand side (it's a left value anyway)
                                     //let left = self.generate_expr(lhs, pos, true, true)?;
-                                    let right = self.generate_expr(rhs, pos, true, true)?;
+                                    let right = self.generate_high_byte_of_rhs(rhs, pos)?;
                                     self.generate_assign(&left, &right, pos, true)?;
                                 }
                             }
@@ -919,7 +942,17 @@ impl<'a> GeneratorState<'a> {
                     }
                 }
             },
-            Expr::FunctionCall(expr, params) => self.generate_function_call(expr, params, pos),
+            Expr::FunctionCall(expr, params) => {
+                if high_byte {
+                    // The function was already called for the low byte, and its 8 bits result
+                    // can't take part in the carry chain of the high byte
+                    return Err(self.compiler_state.syntax_error(
+                        "Function call in a 16 bits expression. Please use an intermediate variable",
+                        pos,
+                    ));
+                }
+                self.generate_function_call(expr, params, pos)
+            }
             Expr::MinusMinus(expr, false) => {
                 let expr_type = self.generate_expr(expr, pos, high_byte, high_byte)?;
                 if !second_time {
